@@ -540,7 +540,7 @@ def run(chk, ctx):
     exps = exponents(ctx)
     for c in fixed_cases(dadi):
         run_case(chk, ctx, c, rng, exps)
-    n = 120 if tier == 'quick' else 1500
+    n = 120 if tier == 'quick' else 4000
     for it in range(n):
         c = gen_case(dadi, rng, tier)
         run_case(chk, ctx, c, rng, exps)
